@@ -176,6 +176,23 @@ def loadFrom (r : Registry) : List Stmt → Registry × List LoadOutcome
 /-- Load into a fresh `NewModules()`. -/
 def loadAll (ss : List Stmt) : Registry × List LoadOutcome := loadFrom {} ss
 
+/-- `Modules.Parse` on the statements of one source text (what parser and AST builder hand over):
+each is added in turn, every one seeing those added before it — also its siblings of the same
+text; when one is refused the whole text is refused (`restoreNames`: the caller keeps `r`). -/
+def addText (r : Registry) (ss : List Stmt) : Except AddErr Registry := ss.foldlM (fun r s => r.add s) r
+
+/-- Load texts (each a list of top-level statements) one after the other, each atomically.
+Returns the final registry and, per text, the error of the first statement refused, if any. -/
+def loadTextsFrom (r : Registry) : List (List Stmt) → Registry × List LoadOutcome
+  | [] => (r, [])
+  | t :: rest =>
+    match r.addText t with
+    | .ok r' => let (rf, out) := loadTextsFrom r' rest; (rf, none :: out)
+    | .error e => let (rf, out) := loadTextsFrom r rest; (rf, some e :: out)
+
+/-- Texts into a fresh `NewModules()`. -/
+def loadTexts (ts : List (List Stmt)) : Registry × List LoadOutcome := loadTextsFrom {} ts
+
 /-- `Modules.FindModule` for an import (`isInclude = false`) or include statement, in-memory part
 only: reading a missing module from the search path is outside the model (the harness runs in
 an empty directory with an empty path, where the read fails). -/
